@@ -1,13 +1,13 @@
 #!/bin/bash
 # coverage.sh [tier] [checks...]: which lines of libvna do the checks reach?
-# Builds the driver with gcc --coverage (variant "cov"), runs the checks with
-# that binary in place of the sanitized one (their evidence goes to a scratch
+# Builds the driver with gcc --coverage plus the allocation-fault shim (variant
+# "cov"), runs the checks with that binary in place of the sanitized ones (their evidence goes to a scratch
 # directory: an unsanitized run is not evidence), and writes
 # coverage/SUMMARY.md (per source file: lines, executed, %) plus
 # coverage/unreached/<file>.txt (the lines never executed).
 cd /verif
 tier=${1:-quick}; shift
-checks=${@:-C01 C02 C03 C04 C05 C06 C07 C08 C09 C10 C11 C13 C14 C15 C16 C17 C18 C19 C20}
+checks=${@:-C01 C02 C03 C04 C05 C06 C07 C08 C09 C10 C11 C12 C13 C14 C15 C16 C17 C18 C19 C20}
 rm -rf build/cov/*.gcda
 export VERIF_COVERAGE=1 VERIF_EVIDENCE_DIR=/dev/shm/verif-cov-evidence
 for c in $checks; do
